@@ -372,6 +372,27 @@ def scenario(rng, idx, prop, tag):
             "iso": prop == "C09" or rng.random() < 0.1, "log": prop in ("C18",) or rng.random() < 0.15}
 
 
+def overlap_c09(rng, tag, n):
+    """two connections; a request of the first is parked inside its handler (at a logger call) while the second
+    connection runs whole exchanges with the same session ids"""
+    cfg = base_cfg(rng, tag)
+    out = []
+    for i in range(n):
+        users = rng.sample(["alice", "bob", "frank", "carol", "nobody"], 2)
+        scr = []
+        for u in users:
+            pw = pw_of(cfg, "s1", u) or "wrong-" + tag
+            scr.append(rng.choice([ascii_login(u, pw), ascii_login(u, pw, user_in_start=True), pap_login(u, pw), ascii_login(u, "bad-" + tag)]))
+        a = session_steps(1, 0, scr[0])
+        b = session_steps(2, 0, scr[1])       # same session id on the other connection
+        k = rng.randrange(len(a))
+        a[k]["hold"] = True
+        steps = a[:k + 1] + b + a[k + 1:]
+        out.append({"id": "c09ov-%d" % i, "cfg": cfg, "conns": [{"c": 1, "addr": "10.1.0.5"}, {"c": 2, "addr": "10.1.0.6"}], "steps": steps,
+                    "iso": True, "log": False, "overlap": True})
+    return out
+
+
 def exhaustive_c09(rng, tag, limit):
     """all interleavings of small script pairs/triples on one connection"""
     cfg = base_cfg(rng, tag)
@@ -436,6 +457,7 @@ def collect(ctx, prop):
     scen = [scenario(rng, i, prop, tag) for i in range(n)]
     if prop == "C09":
         scen += exhaustive_c09(rng, tag, 300 if quick else 6000)
+        scen += overlap_c09(rng, tag, 150 if quick else 3000)
     if prop == "C10":
         cfg0 = base_cfg(rng, tag)
         sw = start_sweep(cfg0, "s1", tag)
